@@ -262,9 +262,50 @@ class IdentityRun(PubSubRun):
         self.w.quiesce()
         self.after_step(att)
 
+    def step_fill_pool(self):
+        """every dynamic id is taken; then one holder leaves and a newcomer must get exactly that id"""
+        ch = self.ch
+        self.t("dynamic ids are requested until the pool is exhausted")
+        self.res.probes["pool_filled"] += 1
+        made = []
+        for i in range(104):
+            a = self.new_actor(f"d{len(self.actors)}")
+            a.protected = True
+            a.open()
+            a.handshake("v2v1", req_id=0, allow_multiple=False, name=b"", pid=1)
+            a.opts = dict(rid=0, multi=False, logger=False, daemon=False, name=b"")
+            a.via = "raw_v2v1"
+            self.parts.append(a)
+            att = dict(via="raw_v2v1", opts=a.opts, idx=len(self.parts) - 1, part=a, conn=a.conn, outcome=None)
+            self.attempts.append(att)
+            self.w.quiesce()
+            self.after_step(att, light=True)
+            if att.get("acked_id") is not None:
+                made.append(a)
+        if not made:
+            return
+        which = ch.choose("id.poolrelease", ["last", "first", "middle"])
+        gone = {"last": made[-1], "first": made[0], "middle": made[len(made) // 2]}[which]
+        gone.leave(ch.choose("id.poolway", ["fin", "rst"]))
+        self.w.quiesce()
+        self.t(f"{gone.name} (the {which} dynamic holder) leaves; a newcomer asks for a dynamic id")
+        a = self.new_actor(f"d{len(self.actors)}")
+        a.protected = True
+        a.open()
+        a.handshake("v2v1", req_id=0, allow_multiple=False, name=b"", pid=1)
+        a.opts = dict(rid=0, multi=False, logger=False, daemon=False, name=b"")
+        a.via = "raw_v2v1"
+        self.parts.append(a)
+        att = dict(via="raw_v2v1", opts=a.opts, idx=len(self.parts) - 1, part=a, conn=a.conn, outcome=None)
+        self.attempts.append(att)
+        self.w.quiesce()
+        self.after_step(att, light=True)
+
     def step_dyn_burst(self):
         """enough dynamic connects to wrap the dynamic-id cursor, some ids held live"""
         ch = self.ch
+        if ch.flag("id.fillpool", 1, 6):
+            return self.step_fill_pool()
         n = ch.choose("id.burst", [30, 95, 110, 130, 230])
         hold_every = ch.choose("id.hold", [3, 7, 13, 50])
         random_hold = ch.flag("id.randhold", 1, 2)
